@@ -16,7 +16,12 @@
      - buildField does not descend into a property that is a $ref (nor into an array whose items are a $ref);
      - loadTypeSchema descends into $ref targets only under allOf and under array items whose type name is "object"
        (a definition called `object`), and only after isCircular(ref) said no and refMap[ref] was set to false - the
-       IN-PROGRESS mark -, which the deferred setDefined(ref) turns into true when that loadTypeSchema frame returns;
+       IN-PROGRESS mark. Array items: the deferred setDefined(ref) turns it into true when that loadTypeSchema frame
+       returns. allOf parts (since c310a5e): setDefined(ref) follows the load of the part at once when it succeeded - an
+       allOf diamond (A: allOf [B, C], C: allOf [B]) is no circle -; when the part fails the error is returned and the
+       mark stays (every caller returns the error too: nothing looks at the map again);
+     - (since bda330c) an inline array below an array - items of a definition, or a property - gets a type of its own:
+       loadTypeSchema / buildField descend into it like into an inline object;
      - refMap is created once (`if o.refMap == nil`), never reset in mid-recursion.
    The deferred setDefined("") of an inline allOf / items entry writes the key "" that isCircular never reads
    (it answers false for Ref == "" first): not modelled. The name stack only shapes names and messages: not modelled. *)
@@ -59,7 +64,7 @@ Definition is_circular (rm:rmap) (s:sref) : bool := match s with SRef r => inpro
 (* `if ref.Ref != "" { o.refMap[ref.Ref] = false }` *)
 Definition mark (rm:rmap) (s:sref) : rmap := match s with SRef r => rset rm r false | SInl _ => rm end.
 Definition marks_of (s:sref) : list positive := match s with SRef r => [r] | SInl _ => [] end.
-(* the deferred setDefined calls of one frame *)
+(* setDefined for the refs of one schema position (deferred: array items; at once: an allOf part) *)
 Fixpoint set_done (rm:rmap) (l:list positive) : rmap := match l with [] => rm | r::t => set_done (rset rm r true) t end.
 
 Inductive lres := LOk | LCirc | LNoItems | LFuel.
@@ -81,6 +86,11 @@ Fixpoint tn_obj (fuel:nat) (d:sdoc) (s:sref) : option bool :=
     end
   end.
 
+(* schema.Type.Is(array) *)
+Definition is_arr (d:sdoc) (n:nat) : bool := match kind_of d n with KArr _ | KArrNoItems => true | _ => false end.
+(* innerArray := schema.Items.Ref == "" && schema.Items.Value.Type.Is(array) *)
+Definition inner_array (d:sdoc) (s:sref) : bool := match s with SRef _ => false | SInl m => is_arr d m end.
+
 Section WithLoad.
   (* loadTypeSchema at the next lower fuel *)
   Variable ld : nat -> rmap -> lres * rmap.
@@ -97,8 +107,10 @@ Section WithLoad.
         | KArr (SInl m) =>
             match tn p with
             | None => (LFuel, rm)
-            | Some true => ld m rm                      (* case OBJECT: prop = prop.Value.Items; loadTypeSchema(prop.Value) *)
-            | Some false => (LOk, rm)
+            | Some b =>
+                (* b: case OBJECT: prop = prop.Value.Items; loadTypeSchema(prop.Value).
+                   is_arr d m: an array of arrays, loadTypeSchema(prop.Value.Items.Value) *)
+                if b || is_arr d m then ld m rm else (LOk, rm)
             end
         | KArrNoItems => (LOk, rm)                      (* Items := a fresh empty object schema; loading it gives a string alias *)
         | KObj _ _ _ => ld n rm                         (* case OBJECT *)
@@ -114,17 +126,15 @@ Section WithLoad.
               if lres_ok res then fields t rm1 else (res, rm1)
     end.
 
-  (* `for _, subschema := range schema.AllOf`: circularity test, in-progress mark, deferred done-mark, recursive load.
-     Third component: the refs whose setDefined this frame has deferred so far *)
-  Fixpoint allofs (l:list sref) (rm:rmap) : lres * rmap * list positive :=
+  (* `for _, subschema := range schema.AllOf`: circularity test, in-progress mark, recursive load; on success the
+     done-mark at once, on failure the error is returned with the mark still set *)
+  Fixpoint allofs (l:list sref) (rm:rmap) : lres * rmap :=
     match l with
-    | [] => (LOk, rm, [])
+    | [] => (LOk, rm)
     | s::t =>
-        if is_circular rm s then (LCirc, rm, [])
+        if is_circular rm s then (LCirc, rm)
         else let '(res, rm2) := ld (value_of d s) (mark rm s) in
-             if lres_ok res
-             then let '(res3, rm3, ms) := allofs t rm2 in (res3, rm3, marks_of s ++ ms)
-             else (res, rm2, marks_of s)
+             if lres_ok res then allofs t (set_done rm2 (marks_of s)) else (res, rm2)
     end.
 End WithLoad.
 
@@ -136,20 +146,19 @@ Fixpoint load (fuel:nat) (d:sdoc) (n:nat) (rm:rmap) : lres * rmap :=
     | KArr it =>
         match tn_obj f d it with
         | None => (LFuel, rm)
-        | Some true =>
-            if is_circular rm it then (LCirc, rm)
-            else let '(res, rm2) := load f d (value_of d it) (mark rm it) in
-                 (res, set_done rm2 (marks_of it))
-        | Some false => (LOk, rm)                                     (* items = typeAliasForSchema(schema.Items) *)
+        | Some b =>
+            if b || inner_array d it then
+              if is_circular rm it then (LCirc, rm)
+              else let '(res, rm2) := load f d (value_of d it) (mark rm it) in
+                   (res, set_done rm2 (marks_of it))                  (* defer setDefined(schema.Items.Ref) *)
+            else (LOk, rm)                                            (* items = typeAliasForSchema(schema.Items) *)
         end
     | KObj oneof allof props =>
         match oneof with
         | _ :: _ => fields (load f d) (tn_obj f d) d oneof rm          (* a Union: allOf and properties are not looked at *)
         | [] =>
-            let '(res, rm1, ms) := allofs (load f d) d allof rm in
-            if lres_ok res
-            then let '(res2, rm2) := fields (load f d) (tn_obj f d) d props rm1 in (res2, set_done rm2 ms)
-            else (res, set_done rm1 ms)
+            let '(res, rm1) := allofs (load f d) d allof rm in
+            if lres_ok res then fields (load f d) (tn_obj f d) d props rm1 else (res, rm1)
         end
     | KPrim => (LOk, rm)
     end
